@@ -541,6 +541,14 @@ def run_case(case: T.Dict[str, T.Any]) -> T.Dict[str, T.Any]:
                                    cwd_root=case.get('cwd', 'root') != 'outside')
                 _collect(out, step, case, ci, group[0], bf, af, status)
                 _lean_apply(out, recs, bf, af_raw, root)
+                for rec_ in recs:
+                    for w_ in rec_['works']:
+                        m_ = [int(x) for x in w_['meta'].split(',')]
+                        rel_ = os.path.relpath(w_['file'], os.path.realpath(root))
+                        if m_[0] == 2 or rel_ not in bf:
+                            continue
+                        for a_ in R.adjacent_tokens(bf[rel_], (m_[2], m_[3], m_[4], m_[5])):
+                            out['tags'].append('adjacent:' + a_)
                 for rm in cap.removals[r0:]:
                     if rm['cands'] is None or rm['removed'] is None or not rm['cands']:
                         continue
@@ -795,6 +803,22 @@ CORPUS_TREES = [
     (_TREE, [{'type': 'target', 'target': 'tool', 'operation': 'src_add', 'sources': ['app/new0.c']}], 'root'),
     (_TREE, [{'type': 'target', 'target': 'tool', 'operation': 'src_rm', 'sources': ['app/main.c']}], 'root'),
 ]
+
+
+def hostile_family() -> T.List[T.Dict[str, T.Any]]:
+    """the layout-hostile family: every token kind of the live lexer whose text can span lines (plus escapes, non-ASCII,
+    tabs, continuations, trailing comments, no newline at EOF) next to the start / end of the edited node, for each edit kind"""
+    kinds = R.harvest_hostile_token_kinds()
+    pool = ['s%d.c' % i for i in range(8)]
+    epool = ['e%d.txt' % i for i in range(4)]
+    out = []
+    for label, text, cmds in G.hostile_cases(kinds):
+        files = {f: '' for f in pool + epool + ['new0.c', 'new1.c', 'new2.c', 'newe0.txt', 'newe1.txt']}
+        files['meson.build'] = text
+        out.append({'files': files, 'cmds': cmds, 'mode': 'single', 'prints': False, 'label': label,
+                    'meta': {'pool': pool, 'extra_pool': epool, 'shared': [], 'targets': {}, 'deps': {}, 'project': {},
+                             'hazard': 'hostile-layout'}})
+    return out
 
 
 def corpus_cases() -> T.List[T.Dict[str, T.Any]]:
@@ -1068,7 +1092,7 @@ def run(ctx: Ctx) -> None:
     ]
     R.quiet()
     rng = ctx.rng
-    cases = corpus_cases()
+    cases = corpus_cases() + hostile_family()
     nproj = ctx.scale(420, 4000)
     hz_cycle = [None] * 7 + G.HAZARDS
     for i in range(nproj):
@@ -1078,6 +1102,15 @@ def run(ctx: Ctx) -> None:
         cases.append(G.gen_tree(rng, rng.choice([1, 2, 2, 3])))
     results = _pool_map(cases)
     prints = _absorb(ctx, cases, results)
+    kinds = R.harvest_hostile_token_kinds()
+    ctx.extra['hostile_token_kinds'] = sorted(kinds)
+    for tid, recipe in sorted(G.hostile_snippets(kinds).items()):
+        if recipe is None:
+            ctx.obligation_failed('layout-hostile family', f'token kind {tid!r} of Lexer.token_specification can span lines but has no recipe')
+            continue
+        for pos in ('before-start', 'before-end'):
+            if not ctx.dist.get(f'adjacent:{tid}:{pos}'):
+                ctx.obligation_failed('layout-hostile family', f'no edited node had a {tid} token on its line ({pos})')
     if ctx.model_available:
         stream_small(ctx)
         stream_print(ctx, prints[:ctx.scale(1500, 8000)])
